@@ -33,7 +33,7 @@ def run(pid, tier, seed, replay=None):
         case = rp["trace"]["input"]
         if rp["trace"].get("history"):
             fn = "run_enc_history" if pid == "C06" else "run_solve_history"
-        trs = [t for t in run_tasks("cp", fn, [case], timeout=60) if isinstance(t, dict) and "kind" in t]
+        trs = [t for t in run_tasks("cp", fn, [case], timeout=120) if isinstance(t, dict) and "kind" in t]
         vs = ck.validate(DIR, "CpTrace", trs, "replay")
         ck.classify(trs, vs)
         return ck.finish()
@@ -44,7 +44,7 @@ def run(pid, tier, seed, replay=None):
 
     n = 500 if tier == "quick" else 6000
     cases = gen_cases(rng, n)
-    res = run_tasks("cp", fn, cases, timeout=60)
+    res = run_tasks("cp", fn, cases, timeout=120)
     trs = []
     unsupported = 0
     for c, r in zip(cases, res):
@@ -58,7 +58,7 @@ def run(pid, tier, seed, replay=None):
         trs.append(r)
     if pid == "C05":       # call histories: solve, then extend the same Model object, then solve again
         hc = [drv.gen_history_case(rng, aux=i % 2 == 0) for i in range(n // 3)]
-        for c, r in zip(hc, run_tasks("cp", "run_solve_history", hc, timeout=60)):
+        for c, r in zip(hc, run_tasks("cp", "run_solve_history", hc, timeout=120)):
             if isinstance(r, dict) and r.get("unsupported"):
                 unsupported += 1
             elif isinstance(r, dict) and "kind" in r:
@@ -73,7 +73,7 @@ def run(pid, tier, seed, replay=None):
         for i, c in enumerate(hc):
             c["presolves"] = 1 + (i % 3 == 2)
             c["prelimit"] = 1 if i % 4 else 3
-        for c, r in zip(hc, run_tasks("cp", "run_enc_history", hc, timeout=60)):
+        for c, r in zip(hc, run_tasks("cp", "run_enc_history", hc, timeout=120)):
             if isinstance(r, dict) and r.get("unsupported"):
                 unsupported += 1
             elif isinstance(r, dict) and "kind" in r:
